@@ -1,7 +1,7 @@
 ENGINES = [
-    {"name": "E1", "path": "mc/core.py (run_subs) + mc/enum_*.py", "serves_properties": [], "kind_free_text": "bounded-exhaustive input enumeration on the real code against independent oracles"},
-    {"name": "E2", "path": "mc/core.py (bfs_explore)", "serves_properties": ["C15"], "kind_free_text": "explicit-state breadth-first search over operation histories on the real object, states merged on a canonical snapshot, reference model compared after every transition"},
-    {"name": "E3", "path": "mc/seams.py", "serves_properties": [], "kind_free_text": "stateless deviation-bounded exploration of environment answers (id reuse, batch cuts, completion orders)"},
+    {"name": "E1", "path": "mc/core.py (run_subs) + mc/enum_graphs.py, enum_crn.py, enum_rxn.py, its_family.py, curated.py", "serves_properties": ["C01", "C02", "C03", "C04", "C05", "C06", "C07", "C08", "C09", "C10", "C11", "C12", "C13", "C16", "C17", "C18", "C19", "C20"], "kind_free_text": "bounded-exhaustive enumeration of a written-down finite input family, executed on the real code, every case compared with an independent oracle (backtracking morphism enumerator, exact rational linear algebra, dict reference store, exhaustive marking reachability, RDKit)"},
+    {"name": "E2", "path": "mc/core.py (bfs_explore), mc/edit_layer.py, history sub-checks in c07/c13/c14/c20", "serves_properties": ["C15", "C07", "C13", "C14", "C17", "C18", "C19", "C20"], "kind_free_text": "explicit-state breadth-first search / exhaustive enumeration of operation histories on the real object (states merged on a canonical snapshot that keeps every attribute), reference model or fresh-object differential after every transition"},
+    {"name": "E3", "path": "mc/seams.py (Chooser, explore, IdSeam, ObjectIdSeam, VirtualParallel), mc/run.py (hashseed_runs)", "serves_properties": ["C14", "C18", "C05", "C08", "C13", "C15", "C16"], "kind_free_text": "stateless deviation-bounded exploration of environment answers: id() reuse of dead objects, every cut of a task list into pickled batches, container insertion orders, PYTHONHASHSEED; all executions with 0, 1, 2 deviations from the default answer"},
 ]
 NOTES = "All checks run /repo's working tree via the editable install in /venv. No source hooks. Genuine defects repaired by 'fix:' commits are listed in known_findings.json under 'fixed'."
 CHECKS = {
